@@ -8,6 +8,10 @@ python3 - <<'PY'
 import sys, os, json, importlib
 sys.path.insert(0, os.getcwd())
 import checklib as L
+# translators first: coq/Gen/*.v is regenerated from /repo (never committed), and the make needs it
+from checks import schema_common, c10
+print("vgen schema:", schema_common.generate(None), "schemas")
+print("vskel:", c10.generate(None))
 L.coq_project()
 rc, out, err, dt = L.sh(f"make -f Makefile.coq -j{L.NCPU}", cwd=L.COQ, timeout=7000)
 print("coq make rc=%d in %.0fs" % (rc, dt))
